@@ -1,6 +1,6 @@
 (** C07: the chain loop of filtering.c computes the conjunction of the known elements' verdicts — for
     every chain, every registry and every behaviour of the registered functions, for all constant
-    records with [filter_consts_ok]. *)
+    records with [chain_consts_ok]. *)
 From Snoopy Require Import Lib.CStr Filter.Model.
 From Coq Require Import ZifyBool ZifyN ZifyNat Permutation.
 Local Open Scope N_scope.
@@ -122,10 +122,10 @@ Qed.
 
 Section Proofs.
   Variable c : filter_consts.
-  Hypothesis Hok : filter_consts_ok c = true.
+  Hypothesis Hok : chain_consts_ok c = true.
   Variable impl : fimpl -> list byte -> bool.
 
-  Ltac split_ok := unfold filter_consts_ok in Hok; repeat (apply andb_true_iff in Hok as [Hok ?]).
+  Ltac split_ok := unfold chain_consts_ok in Hok; repeat (apply andb_true_iff in Hok as [Hok ?]).
 
   Lemma ok_delims : chain_delim c = [SEMI] /\ name_delim c = [COLONB].
   Proof. split_ok. split; now apply list_eqb_eq. Qed.
